@@ -1,0 +1,14 @@
+//go:build verif
+
+package http1
+
+// VerifYield, when set by a verification harness, is called at the pool's lock
+// boundaries (never while connsLock is held) so that a seeded decision can yield,
+// spin or sleep there and widen the set of interleavings a run explores.
+var VerifYield func(point int)
+
+func verifYield(point int) {
+	if f := VerifYield; f != nil {
+		f(point)
+	}
+}
